@@ -30,7 +30,7 @@ RULE = ("model tie (whole traces): Checker.iter_hashes() over FeedChecker / Hash
         "padding, every other entry is read from disk.  A DIRECTORY WHOSE ONLY FILE IS NAMED LIKE IT (data/data, and data/data/data): "
         "Checker.__init__ tie, whole-run tie and aimed end-to-end layouts over every v2-view kind (incl. reference v2, whose file tree "
         "then has the shape of a single-file metafile without info.length) + v1 / reference v1, through the payload root AND the "
-        "parent directory." + rc.TEXT_RULE + rc.SCALE_RULE)
+        "parent directory." + rc.TEXT_RULE + rc.PATHS_RULE + rc.SCALE_RULE)
 TRUSTED_BASE = rc.TRUSTED_BASE
 ASSUMPTIONS = rc.ASSUMPTIONS
 
